@@ -118,7 +118,8 @@ def jsonHelper (text : Val) (arg : Val) : Val :=
     | some doc =>
       match Path.getAllOf p doc with
       | [] => .ofBool false
-      | r :: _ => .json r
+      | [r] => .json r
+      | rs => .json (.arr rs)   -- several matches stand for the list of them, as for a plain path
   | _ => .ofBool false          -- not a compiled path (`a.json("x")`)
 
 /-! ### redact -/
